@@ -146,7 +146,7 @@ def shard(ctx):
         elif x < 0.65:
             kind, text = hostile.hostile_text(rng)
         else:
-            kind, text = 'grammar', gen.text()
+            kind, text = 'grammar', hostile.decorate(rng, gen.text())
         check_text(ctx, kind, text)
 
 
